@@ -260,9 +260,9 @@ theorem addBipNode_sized (isRoot : Bool) (S : List Nat) (len sup : Rat) (d : Nod
     (hnd : S.Nodup) :
     match addBipNode isRoot S len sup (.node d p k) with
     | .err => True
-    | .inner n' => ∃ (A B : Kids) (pp m : Nat), (A ++ B).Perm k ∧ 2 ≤ B.length ∧ (isRoot = true → 2 ≤ A.length) ∧
+    | .inner n' => ∃ (A B : Kids) (pp m : Nat), (A ++ B).Perm k ∧ 2 ≤ B.length ∧ 1 ≤ A.length ∧ (isRoot = true → 2 ≤ A.length) ∧
         n' = .node d pp (A ++ [(⟨len, sup, NIL, [], -1⟩, .node ⟨"", []⟩ m (B.map fr))])
-    | .outer n2 => ∃ (A B : Kids) (pp : Nat), (A ++ B).Perm k ∧ 2 ≤ A.length ∧
+    | .outer n2 => ∃ (A B : Kids) (pp : Nat), (A ++ B).Perm k ∧ 2 ≤ A.length ∧ 1 ≤ B.length ∧
         n2 = .node ⟨"", []⟩ pp (B.map fr ++ [(⟨len, sup, NIL, [], -1⟩, .node d A.length A)]) := by
   have key : ∀ sel, S.mapM (fun i => (if isRoot then k.map some else Gotree.C05.insertAt (k.map some) p (none : Option (EdgeD × T)))[i]?) = some sel →
       ((dropSlots S 0 (if isRoot then k.map some else Gotree.C05.insertAt (k.map some) p (none : Option (EdgeD × T)))).filterMap id ++
@@ -308,7 +308,7 @@ theorem addBipNode_sized (isRoot : Bool) (S : List Nat) (len sup : Rat) (d : Nod
               rw [List.countP_eq_zero]; intro a ha hn
               exact hany (List.any_eq_true.mpr ⟨a, ha, hn⟩)
             simp only [Bool.or_eq_true, decide_eq_true_eq, not_or] at hsz
-            refine ⟨_, _, _, _, h1, by omega, ?_, rfl⟩
+            refine ⟨_, _, _, _, h1, by omega, by omega, ?_, rfl⟩
             intro hf
             first
               | exact absurd hf (by decide)
@@ -332,7 +332,7 @@ theorem addBipNode_sized (isRoot : Bool) (S : List Nat) (len sup : Rat) (d : Nod
               obtain ⟨a, ha, hn⟩ := List.any_eq_true.mp hany
               exact List.countP_pos_iff.mpr ⟨a, ha, hn⟩
             simp only [Bool.or_eq_true, decide_eq_true_eq, not_or] at hsz
-            exact ⟨_, _, _, h1, by omega, rfl⟩
+            exact ⟨_, _, _, h1, by omega, by omega, rfl⟩
           · cases hres
 
 theorem leaves_of_len {u t : T} (hlen : u.kids.length = t.kids.length) (hname : u.name = t.name)
@@ -376,7 +376,7 @@ theorem addBipNode_leaves (isRoot : Bool) (S : List Nat) (len sup : Rat) (d : No
   | err => trivial
   | inner n' =>
     rw [hres] at h
-    obtain ⟨A, B, pp, m, hp, hB, hA, rfl⟩ := h
+    obtain ⟨A, B, pp, m, hp, hB, _, hA, rfl⟩ := h
     have hk : k ≠ [] := by
       intro hk; subst hk
       have := hp.length_eq
@@ -392,7 +392,7 @@ theorem addBipNode_leaves (isRoot : Bool) (S : List Nat) (len sup : Rat) (d : No
       omega
   | outer n2 =>
     rw [hres] at h
-    obtain ⟨A, B, pp, hp, hA, rfl⟩ := h
+    obtain ⟨A, B, pp, hp, hA, _, rfl⟩ := h
     have hk : k ≠ [] := by
       intro hk; subst hk
       have := hp.length_eq
@@ -489,6 +489,201 @@ theorem addBipL_inv (S : List Nat) (len sup : Rat) (hnd : S.Nodup) : ∀ (i : Na
       | some en =>
         simp only [leavesL_cons, List.length_cons, List.append_assoc] at ih ⊢
         exact ⟨List.Perm.append_left _ ih.1, by omega⟩
+    · cases h
+end
+
+/- ## CollapseClade: a non-root node replaced by a tip -/
+
+/-- a node replaced by a tip `name`: the tips below it (`s`) give way to the one name -/
+def Replaced (name : String) (l l' : List String) : Prop :=
+  l' = l ∨ ∃ a s c, l = a ++ s ++ c ∧ l' = a ++ [name] ++ c
+
+theorem Replaced.prefix {name : String} {l l' : List String} (x : List String) (h : Replaced name l l') :
+    Replaced name (x ++ l) (x ++ l') := by
+  rcases h with h | ⟨a, s, c, h1, h2⟩
+  · exact Or.inl (by rw [h])
+  · exact Or.inr ⟨x ++ a, s, c, by simp [h1], by simp [h2]⟩
+
+theorem Replaced.suffix {name : String} {l l' : List String} (y : List String) (h : Replaced name l l') :
+    Replaced name (l ++ y) (l' ++ y) := by
+  rcases h with h | ⟨a, s, c, h1, h2⟩
+  · exact Or.inl (by rw [h])
+  · exact Or.inr ⟨a, s, c ++ y, by simp [h1], by simp [h2]⟩
+
+theorem Replaced.nodup {name : String} {l l' : List String} (h : Replaced name l l') (hn : l.Nodup)
+    (hm : name ∉ l) : l'.Nodup := by
+  rcases h with h | ⟨a, s, c, h1, h2⟩
+  · rw [h]; exact hn
+  · subst h1 h2
+    have hsub : (a ++ c).Sublist (a ++ s ++ c) := by
+      rw [List.append_assoc]
+      exact List.Sublist.append_left (List.sublist_append_right s c) a
+    have h1 : (a ++ c).Nodup := hsub.nodup hn
+    have h2 : name ∉ a ++ c := fun hx => hm (hsub.subset hx)
+    have hp : (a ++ [name] ++ c).Perm (name :: (a ++ c)) := by
+      simpa using (List.perm_middle (a := name) (l₁ := a) (l₂ := c))
+    exact hp.nodup_iff.mpr (List.nodup_cons.mpr ⟨h2, h1⟩)
+
+theorem modAtL_repl (name : String) : ∀ (i : Nat) (p : List Nat) (k : Kids),
+    (modAtL (fun _ _ => T.leaf name) i p k).length = k.length ∧
+    (noSingleL k = true → noSingleL (modAtL (fun _ _ => T.leaf name) i p k) = true) ∧
+    Replaced name (leavesL k) (leavesL (modAtL (fun _ _ => T.leaf name) i p k))
+  | _, _, [] => by simp [modAtL, Replaced]
+  | 0, [], (e, t) :: r => by
+    refine ⟨by simp [modAtL], ?_, ?_⟩
+    · intro h
+      simp only [noSingleL, Bool.and_eq_true] at h
+      simp [modAtL, modAt, noSingleL, T.leaf, T.noSingleBelow, h.2]
+    · refine Or.inr ⟨[], t.leaves, leavesL r, by simp [leavesL_cons], ?_⟩
+      simp [modAtL, modAt, leavesL_cons, T.leaf, T.leaves]
+  | 0, j :: q, (e, .node d pp kk) :: r => by
+    obtain ⟨h1, h2, h3⟩ := modAtL_repl name j q kk
+    refine ⟨by simp [modAtL], ?_, ?_⟩
+    · intro h
+      simp only [noSingleL, Bool.and_eq_true, noSingleBelow_node] at h
+      simp only [modAtL, modAt, noSingleL, Bool.and_eq_true, noSingleBelow_node, h1]
+      exact ⟨⟨h.1.1, h2 h.1.2⟩, h.2⟩
+    · simp only [modAtL, modAt, leavesL_cons]
+      refine Replaced.suffix _ ?_
+      rw [T.leaves_node, T.leaves_node]
+      have he : (modAtL (fun _ _ => T.leaf name) j q kk).isEmpty = kk.isEmpty := by
+        cases hk : kk <;> cases hm : modAtL (fun _ _ => T.leaf name) j q kk <;> simp_all
+      rw [he]
+      split
+      · exact Or.inl rfl
+      · exact h3
+  | i + 1, p, (e, t) :: r => by
+    obtain ⟨h1, h2, h3⟩ := modAtL_repl name i p r
+    refine ⟨by simp [modAtL, h1], ?_, ?_⟩
+    · intro h
+      simp only [noSingleL, Bool.and_eq_true] at h
+      simp only [modAtL, noSingleL, Bool.and_eq_true]
+      exact ⟨h.1, h2 h.2⟩
+    · simp only [modAtL, leavesL_cons]
+      exact Replaced.prefix _ h3
+
+/-- replacing a non-root node by a tip with a new name keeps the tip names distinct and creates no
+    single-child node -/
+theorem replaceAt_inv (name : String) (i : Nat) (q : List Nat) (t : T) (hu : t.tipNames.Nodup)
+    (hn : name ∉ t.tipNames) :
+    (modAt (fun _ _ => T.leaf name) true (i :: q) t).tipNames.Nodup ∧
+    (t.noSingle = true → (modAt (fun _ _ => T.leaf name) true (i :: q) t).noSingle = true) := by
+  obtain ⟨d, pp, k⟩ := t
+  obtain ⟨h1, h2, h3⟩ := modAtL_repl name i q k
+  simp only [modAt, T.noSingle, T.kids_node]
+  refine ⟨?_, h2⟩
+  unfold T.tipNames at hu hn ⊢
+  simp only [T.kids_node, h1] at hu hn ⊢
+  exact (Replaced.prefix _ h3).nodup hu hn
+/- ## AddBipartition creates no single-child node -/
+
+theorem nsL_append (a b : Kids) : noSingleL (a ++ b) = (noSingleL a && noSingleL b) := by
+  simp [noSingleL_eq_all, List.all_append]
+
+theorem reparent_ns (c : T) : (reparent c).noSingleBelow = c.noSingleBelow := by
+  obtain ⟨d, p, k⟩ := c
+  simp [reparent, noSingleBelow_node]
+
+theorem nsL_map_fr : ∀ (B : Kids), noSingleL (B.map fr) = noSingleL B
+  | [] => rfl
+  | (e, c) :: r => by simp [fr, noSingleL, reparent_ns, nsL_map_fr r]
+
+theorem addBipNode_ns (isRoot : Bool) (S : List Nat) (len sup : Rat) (d : NodeD) (p : Nat) (k : Kids)
+    (hnd : S.Nodup) (hk : noSingleL k = true) :
+    match addBipNode isRoot S len sup (.node d p k) with
+    | .err => True
+    | .inner n' => noSingleL n'.kids = true ∧ (isRoot = false → n'.kids.length ≠ 1)
+    | .outer n2 => n2.noSingleBelow = true := by
+  have h := addBipNode_sized isRoot S len sup d p k hnd
+  cases hres : addBipNode isRoot S len sup (.node d p k) with
+  | err => trivial
+  | inner n' =>
+    rw [hres] at h
+    obtain ⟨A, B, pp, m, hp, hB, hA1, _, rfl⟩ := h
+    have hab : noSingleL (A ++ B) = true := by rw [noSingleL_perm hp]; exact hk
+    rw [nsL_append, Bool.and_eq_true] at hab
+    refine ⟨?_, fun _ => ?_⟩
+    · simp only [T.kids_node, nsL_append, noSingleL, noSingleBelow_node, nsL_map_fr, List.length_map, hab.1, hab.2,
+        Bool.and_true, Bool.true_and, bne_iff_ne, ne_eq, decide_eq_true_eq, Bool.and_eq_true]
+      omega
+    · simp only [T.kids_node, List.length_append, List.length_cons, List.length_nil]; omega
+  | outer n2 =>
+    rw [hres] at h
+    obtain ⟨A, B, pp, hp, hA, hB, rfl⟩ := h
+    have hab : noSingleL (A ++ B) = true := by rw [noSingleL_perm hp]; exact hk
+    rw [nsL_append, Bool.and_eq_true] at hab
+    simp only [noSingleBelow_node, nsL_append, noSingleL, nsL_map_fr, hab.1, hab.2, List.length_append, List.length_map,
+      List.length_cons, List.length_nil, Bool.and_true, Bool.true_and, Bool.and_eq_true, bne_iff_ne, ne_eq]
+    exact ⟨by omega, by omega⟩
+
+mutual
+theorem addBipAt_ns (S : List Nat) (len sup : Rat) (hnd : S.Nodup) : ∀ (i : Nat) (p : List Nat) (t t' : T),
+    addBipAt S len sup (i :: p) t = some t' → noSingleL t.kids = true → noSingleL t'.kids = true
+  | i, p, .node d pp k, t', h, hk => by
+    simp only [addBipAt] at h
+    split at h
+    · cases h
+    · rename_i k' hkk
+      have := addBipL_ns S len sup hnd i p k k' none hkk hk
+      simp only [Option.some.injEq] at h; subst h
+      exact this
+    · rename_i k' eP n2 hkk
+      have := addBipL_ns S len sup hnd i p k k' (some (eP, n2)) hkk hk
+      simp only [Option.some.injEq] at h; subst h
+      simp only [T.kids_node, nsL_append, noSingleL, this.1, this.2, Bool.and_true]
+theorem addBipL_ns (S : List Nat) (len sup : Rat) (hnd : S.Nodup) : ∀ (i : Nat) (p : List Nat) (k k' : Kids)
+    (o : Option (EdgeD × T)), addBipL S len sup i p k = some (k', o) → noSingleL k = true →
+    match o with
+    | none => noSingleL k' = true
+    | some en => noSingleL k' = true ∧ en.2.noSingleBelow = true
+  | _, _, [], k', o, h, _ => by simp [addBipL] at h
+  | 0, [], (e, .node d pp kk) :: r, k', o, h, hk => by
+    simp only [noSingleL, Bool.and_eq_true, noSingleBelow_node] at hk
+    have hn := addBipNode_ns false S len sup d pp kk hnd hk.1.2
+    simp only [addBipL] at h
+    split at h
+    · cases h
+    · rename_i t' ht
+      rw [ht] at hn
+      simp only [Option.some.injEq, Prod.mk.injEq] at h
+      obtain ⟨rfl, rfl⟩ := h
+      have ht' : t' = .node t'.d t'.ppos t'.kids := by cases t'; rfl
+      simp only [noSingleL, Bool.and_eq_true, hk.2, and_true]
+      rw [ht', noSingleBelow_node, Bool.and_eq_true]
+      exact ⟨by simpa using hn.2 rfl, hn.1⟩
+    · rename_i n2 ht
+      rw [ht] at hn
+      simp only [Option.some.injEq, Prod.mk.injEq] at h
+      obtain ⟨rfl, rfl⟩ := h
+      exact ⟨hk.2, hn⟩
+  | 0, j :: q, (e, t) :: r, k', o, h, hk => by
+    simp only [addBipL] at h
+    split at h
+    · rename_i t' ht
+      obtain ⟨_, a2, _⟩ := addBipAt_inv S len sup hnd j q t t' ht
+      simp only [Option.some.injEq, Prod.mk.injEq] at h
+      obtain ⟨rfl, rfl⟩ := h
+      have ht0 : t = .node t.d t.ppos t.kids := by cases t; rfl
+      have ht' : t' = .node t'.d t'.ppos t'.kids := by cases t'; rfl
+      rw [ht0] at hk
+      simp only [noSingleL, Bool.and_eq_true, noSingleBelow_node] at hk
+      have := addBipAt_ns S len sup hnd j q t t' ht hk.1.2
+      simp only [noSingleL, Bool.and_eq_true, hk.2, and_true]
+      rw [ht', noSingleBelow_node, Bool.and_eq_true, a2]
+      exact ⟨hk.1.1, this⟩
+    · cases h
+  | i + 1, p, x :: r, k', o, h, hk => by
+    simp only [addBipL] at h
+    split at h
+    · rename_i k'' o' hkk
+      obtain ⟨e, c⟩ := x
+      simp only [noSingleL, Bool.and_eq_true] at hk
+      have ih := addBipL_ns S len sup hnd i p r k'' o' hkk hk.2
+      simp only [Option.some.injEq, Prod.mk.injEq] at h
+      obtain ⟨rfl, rfl⟩ := h
+      cases o' with
+      | none => simp only [noSingleL, Bool.and_eq_true] at ih ⊢; exact ⟨hk.1, ih⟩
+      | some en => simp only [noSingleL, Bool.and_eq_true] at ih ⊢; exact ⟨⟨hk.1, ih.1⟩, ih.2⟩
     · cases h
 end
 
